@@ -226,6 +226,14 @@ func (c *Client) HandlePresence(p stanza.Presence, r xmlstream.TokenReadEncoder)
 			select {
 			case c.j <- p.From:
 				channel.joined = true
+				// This is our occupant address from now on; a previous one (nick
+				// change) is no longer ours.
+				if old := channel.addr; !old.Equal(p.From) {
+					if channel.client.managed[old.String()] == channel {
+						delete(channel.client.managed, old.String())
+					}
+					channel.addr = p.From
+				}
 				return nil
 			case <-c.done:
 				// If the call to Join has timed out, try again to see if we have a
@@ -239,6 +247,11 @@ func (c *Client) HandlePresence(p stanza.Presence, r xmlstream.TokenReadEncoder)
 			c.HandleUserPresence(decodedPresence.Presence, decodedPresence.X.Item)
 		}
 	case stanza.UnavailablePresence:
+		if !p.From.Equal(channel.addr) {
+			// Not the address we have (eg. a nickname that we asked for and were
+			// not given): somebody else's presence.
+			return nil
+		}
 		channel.joined = false
 		delete(c.managed, channel.addr.String())
 		verifYield("presence.depart", p.From.String())
